@@ -362,7 +362,8 @@ bool AutomationMgr::handleMidi(int channel, int type, int val)
 
         if(bound_nrpn)
             return 1;
-        }
+        } else
+            return 0; //only part of an NRPN sequence so far: no controller identified yet
         
     }
     else {
